@@ -99,6 +99,8 @@ mod string;
 #[cfg(test)]
 mod test;
 mod types;
+#[cfg(feature = "verif-hooks")]
+pub mod verif_hooks;
 mod vertical;
 pub(crate) mod visitor;
 
